@@ -20,3 +20,33 @@ TEXT["C18"] = {
  "note": "Source-level semantics only: what an optimiser does with __restrict is outside the model and is sampled, not proved. Trusted: translator's location/alias analysis, harness.",
  "technique": "Lean 4 proof (alias-variant equalities of generated models) + paired differential runs",
 }
+
+TEXT["C02"] = {
+ "level": "Lean 4 theorems, for every limb base B and limb count n (so both the 64-bit and the 32-bit word builds, words and dwords), about executable models that mirror "
+          "bigint.hpp/fp.hpp loop for loop: BigInt add/subtract (with the comparison-based carry recovery), 1-bit shifts, multiply, square (half grid + doubling + diagonal), compare, is_zero; "
+          "FpBase add/multiply2/subtract/negate/reduce return exactly (a+b)%p, 2a%p, (a-b)%p, (-a)%p, canonical (< p), negate 0 = 0; word-serial Montgomery reduction "
+          "(out < p and out*R = T mod p for T < p*R), multiply, square, set, get, get(set x) = x % p; canonical limbs are unique; the BLS12-381 constants R, R2, inv are what the "
+          "algorithms require (kernel-evaluated closed facts over the constants regenerated from the source).  Hand-written models tied to the code by the correspondence on all back ends "
+          "with boundary-directed operands (sums on/around p and 2^384, top-word ties, carry chains, T = p*R-1...).",
+ "note": "Partial: inverse, exponentiate, Legendre, square roots, random, hash_reduce, byte I/O are compared with the executable Spec by the correspondence but are not yet theorems; "
+         "primality of q and r is not yet proved in Lean (certificates in notes/).  Trusted: the hand-written limb models mirror the C++ (checked by running both), Lean kernel.",
+ "technique": "Lean 4 proof (induction over limbs, Montgomery invariant) + differential correspondence on 3-7 back-end configurations",
+}
+TEXT["C19"] = {
+ "level": "Lean 4 theorems deciding COMPLETELY, over tables regenerated from the headers and wrapper sources on every run (sizeof/alignof/offsetof probes compiled for the 64-bit-word and the 32-bit-word configuration): "
+          "every struct of the C headers has the size, alignment, member offsets and member sizes of the C++ type it is reinterpret_cast to (the pairing table itself is derived from the casts in the wrapper .cpp files and "
+          "closed under members; a C struct without partner is a translator error), coeffs[68] = num_coeffs, word typedefs agree, exported size constants equal the C++ expressions.  "
+          "Function-level faithfulness: every C function of bls12_381.h is run against the C++ operation it wraps on identical arguments inside the harness (EQ/NE), all configurations.",
+ "note": "Proof over extracted tables: the extraction (gcc/g++ probes, readelf) is the trusted translator.  Go bindings are read, not executed (no Go toolchain).  wkdibe.h/lqibe.h functions are exercised through "
+         "the C API by the scheme checks (C11-C16), which judge them against the Spec rather than against the C++ entry points.",
+ "technique": "Lean 4 proof (finite layout tables decided by the kernel) + C-vs-C++ differential calls",
+}
+TEXT["C20"] = {
+ "level": "Lean 4 theorems over symbol/relocation tables regenerated from object code on every run (4 configurations): undefined symbols are within {mem* primitives, libgcc division helpers, GOT base}; "
+          "no allocation/IO/locking/guard symbols; every writable object is the dispatch table, an exported const-pointer variable, or a load-time constant; every store to a writable object lies in a static-initialiser "
+          "registered in .init_array; plus a proved abstract-machine theorem (induction over schedules): calls with disjoint write sets that do not read each other's outputs give, under every interleaving, the memory of the sequential execution.  "
+          "Runtime side: every operation stream is executed by 4 threads in different orders (and under TSan in the thorough tier) and must reproduce the sequential, Spec-judged outputs.",
+ "note": "Partial: the footprint premises of the interleaving theorem are established from object-code tables, not from a semantics of machine code; races are sampled, not excluded.  "
+         "Interpretation recorded in DESIGN.md: Fp<384>::one is dynamically initialised at load time (const in source, written once by a static initialiser) and is accepted as a load-time constant.",
+ "technique": "Lean 4 proof (finite symbol tables + interleaving theorem) + multi-threaded differential runs",
+}
